@@ -128,8 +128,8 @@ def _lazy_body(st, g, block, ret):
 SIGS = {      # parameter list after a and b; how the body reads c, the extra positional p and the extra keyword x
     "std": ("*, c=0", "c", "0", "0"),
     "kw": ("*, c=0, **extra", "c", "0", "extra.get('x', 0)"),
-    "var": ("*rest, **extra", "0", "(rest[0] if rest else 0)", "extra.get('x', 0)"),
-    "varkwo": ("*rest, c=0, **extra", "c", "(rest[0] if rest else 0)", "extra.get('x', 0)"),
+    "var": ("*rest, **extra", "0", "(rest[0][1] if rest else 0)", "extra.get('x', 0)"),
+    "varkwo": ("*rest, c=0, **extra", "c", "(rest[0][1] if rest else 0)", "extra.get('x', 0)"),
 }
 TEMPLATE = """
 def target({selfp}a, b=0, {tail}):
@@ -170,7 +170,8 @@ def spell(s):
     if s["sc"] == "k":
         kwargs["c"] = s["c"]
     if s.get("p", 0):
-        args.append(s["p"])          # an extra positional argument (collected by *rest)
+        args.append(("x", s["p"]))   # an extra positional argument (collected by *rest); its VALUE looks like the keyword pair x=p,
+                                     # which is a different call: the key must keep surplus positionals apart from keywords
     if s.get("x", 0):
         kwargs["x"] = s["x"]         # an extra keyword argument (collected by **extra)
     return args, kwargs
